@@ -1236,3 +1236,55 @@ M("u3b-mark-neighbours", "C15", "fire U3b", "src/circuit.rs",
   """                used_gates[shifted_index] = true;
                 used_gates[0] = true;
                 let (x, y) = match self.gates[shifted_index] {""", "the first gate is always kept")
+
+# ---------------------------------------------------------------- C08 M4
+M("m4-struct-offset-only-for-matched-fields", "C08", "fire M4", "src/compile.rs",
+  """                        is_match = circuit.push_and(is_match, is_field_match);
+                    }
+                    w += field_bits;
+                }
+                is_match
+            }
+            PatternEnum::EnumUnit(enum_name, variant_name)""",
+  """                        is_match = circuit.push_and(is_match, is_field_match);
+                        w += field_bits;
+                    }
+                }
+                is_match
+            }
+            PatternEnum::EnumUnit(enum_name, variant_name)""", "struct pattern with `..`: fields after a skipped one are matched against the wrong bits")
+M("m4-tuple-verdict-overwritten", "C08", "fire M4", "src/compile.rs",
+  """                    let is_field_match = field.compile(match_expr, prg, env, circuit);
+                    is_match = circuit.push_and(is_match, is_field_match);
+                    w += field_bits;
+                }
+                is_match
+            }
+            PatternEnum::Struct(struct_name, fields)""",
+  """                    let is_field_match = field.compile(match_expr, prg, env, circuit);
+                    is_match = is_field_match;
+                    w += field_bits;
+                }
+                is_match
+            }
+            PatternEnum::Struct(struct_name, fields)""", "only the last tuple field decides")
+M("m4-enum-fields-start-at-zero", "C08", "quiet", "src/compile.rs",
+  """                        let mut w = tag_size;
+                        let field_types = enum_def""",
+  """                        let mut w = tag_size + 0;
+                        let field_types = enum_def""", "behaviour-preserving no-op edit of the start offset")
+M("m4-enum-slice-wrong-width", "C08", "fire M4", "src/compile.rs",
+  """                            let match_expr = &match_expr[w..w + field_bits];
+                            let is_field_match = field.compile(match_expr, prg, env, circuit);
+                            is_match = circuit.push_and(is_match, is_field_match);
+                            w += field_bits;
+                        }
+                    }
+                    _ => unreachable!(),""",
+  """                            let match_expr = &match_expr[w..w + tag_size];
+                            let is_field_match = field.compile(match_expr, prg, env, circuit);
+                            is_match = circuit.push_and(is_match, is_field_match);
+                            w += field_bits;
+                        }
+                    }
+                    _ => unreachable!(),""", "enum variant fields sliced with the tag width")
